@@ -196,6 +196,7 @@ def std_pairings(reg, W=(1, 2), with_subtotals=True, sizes=None):
     reg.add(Schema("num_cat3_1d_w", [A3], [("cat", 0)], weighted=True, numeric=dict(nm)), W, (None, 1), configs=ronly,
             quick=3, thorough=4)
     reg.add(Schema("cat3_1d", [A3], [("cat", 0)], weighted=True), W, configs=ronly, quick=4, thorough=5)
+    reg.add(Schema("catdate3_1d", [D3], [("cat", 0)], weighted=True), W, configs=ronly, quick=3, thorough=4)
     reg.add(Schema("mr3_1d", [S.mr("n", 3)], [("mr", 0)], weighted=True), W, configs=[{}], quick=2, thorough=3)
     return reg
 
